@@ -209,7 +209,7 @@ def gradient_cases(draw):
     pts = [[draw(gens.nice(-2.0, 2.0, 3)) for _ in range(d)] for _ in range(npts)]
     shift = draw(st.sampled_from([None, 1e-6, 1e-5, 1e-4, 1e-3, 1e-2])) if draw(st.booleans()) else draw(gens.nice(1e-6, 1e-2, 7))
     return {'d': d, 'sins': sins, 'exps': exps, 'quad': quad, 'cub': cub, 'lin': lin, 'shape': shape, 'pts': pts,
-            'shift': shift, 'aslist': draw(st.booleans())}
+            'shift': shift, 'aslist': draw(st.booleans()), 'f32': draw(st.integers(0, 4)) == 0}
 
 
 def _fun(case):
@@ -264,7 +264,12 @@ def oracle_gradient(case):
     d = case['d']
     f, grad, third, fmag = _fun(case)
     x = np.array(case['pts'], dtype=float).reshape(list(case['shape']) + [d])
-    arg = x.tolist() if case['aslist'] else x
+    f32 = bool(case.get('f32')) and not case['aslist']
+    if f32:
+        # evaluation points handed over as a float32 array (the values the function sees are those float32 numbers);
+        # central_difference returns its result in the dtype of coord, so the bound gains one float32 rounding
+        x = x.astype(np.float32).astype(float)
+    arg = x.tolist() if case['aslist'] else (x.astype(np.float32) if f32 else x)
     if case['shift'] is None:
         got = central_difference(f, arg); shift = 1e-5
     else:
@@ -276,16 +281,18 @@ def oracle_gradient(case):
     # truncation shift^2/6 |f'''| + rounding: each f value carries ~ (terms) eps |f| and x+-shift carries eps|x| -> eps |grad|
     bound = shift ** 2 / 6 * third(x, shift) * 1.0001 + (40 * 2.3e-16 * (fmag(x) + 1.0)[..., None] / shift) \
         + 1e-14 * (np.abs(exact) + 1) + 2.3e-16 * (np.abs(x).max() + 1) / shift * (np.abs(exact) + 1)
+    if f32:
+        bound = bound + 1.2e-7 * (np.abs(exact) + 1e-30) + 1e-38
     err = np.abs(got - exact)
     bad = err > bound
     require(not bad.any(), lambda: 'central_difference differs from the analytic gradient by %.3g (bound %.3g, shift %g): got %r exact %r'
             % (err[bad].max(), bound[bad].max(), shift, got.tolist(), exact.tolist()))
-    labs = {'d%d' % d, 'lead%d' % len(case['shape']), 'list' if case['aslist'] else 'array',
+    labs = {'d%d' % d, 'lead%d' % len(case['shape']), 'list' if case['aslist'] else ('float32' if f32 else 'array'),
             'default_shift' if case['shift'] is None else 'shift'}
     # second order: halving the shift divides the truncation error by 4 where truncation dominates rounding
     tb = shift ** 2 / 6 * third(x, 0.0)
     rb = 40 * 2.3e-16 * (fmag(x) + 1.0)[..., None] / shift
-    if case['shift'] is not None and shift >= 2e-4:
+    if case['shift'] is not None and shift >= 2e-4 and not f32:
         g2 = np.asarray(central_difference(f, arg, shift=shift / 2))
         e1, e2 = np.abs(got - exact), np.abs(g2 - exact)
         dom = (e1 > 1e3 * rb) & (e1 > 1e-9)
@@ -480,7 +487,7 @@ CLAUSES = [
            desc='euler / rungekutta step on y\'=Ay equals the degree-1 / degree-4 Taylor polynomial of exp(hA) y; shapes and keyword pass-through'),
     Clause('order', oracle_order, linear_cases, quick=8000, thorough=200000, min_share={'nt': 0.2, 'ratio_checked': 0.05},
            desc='one-step error against expm(hA) y is the first omitted Taylor term (rigorous bracket) and falls by 2^(p+1) on halving h'),
-    Clause('gradient', oracle_gradient, gradient_cases, quick=8000, thorough=200000, min_share={'nt': 0.2, 'ratio_checked': 0.03},
+    Clause('gradient', oracle_gradient, gradient_cases, quick=8000, thorough=200000, min_share={'nt': 0.2, 'ratio_checked': 0.02, 'float32': 0.04},
            desc='central_difference against the analytic gradient within shift^2/6 max|f\'\'\'| + rounding; ratio 4 on halving the shift; shapes'),
     Clause('relax', oracle_relax, relax_cases, quick=160, thorough=4000, nshards=16, min_share={'nt': 0.3, 'prior_other_path_settings': 0.1, 'prior_coord_replaced': 0.1}, max_share={'not_converged_skipped': 0.15},
            desc='string relaxation on the two-minimum family: ends reach the minima, one interior maximum, climbing image reaches the saddle, gradient vanishes, energy = barrier'),
